@@ -8,10 +8,11 @@ import Chrono.Proofs.TzSamples
 import Chrono.Proofs.TzValidL
 import Chrono.Proofs.TzLookupPL
 import Chrono.Proofs.TzLayoutL
+import Chrono.Proofs.TzLocalL
 
 namespace Chrono.Props.C16
 open Chrono Chrono.M.Tz Chrono.Spec.Tz Chrono.Spec.Tz.Gr Chrono.Proofs.Tz Chrono.Proofs.TzValid
-  Chrono.Extracted.TzP
+  Chrono.Extracted.TzP Chrono.Proofs.TzLocal
 
 /-- the extracted header constants are the RFC 8536 ones the writer specification uses, and the
 extracted field bounds are the ones the well-formedness predicates are stated with -/
@@ -53,14 +54,15 @@ theorem rule_total (text : List Nat) (ext : Bool) : from_tz_string text ext ≠ 
 /-! ### inconsistent data is rejected (stated on whatever is accepted) -/
 
 /-- an accepted zone has at least one local time type, strictly increasing transition times, every
-transition's type index in bounds, no `i32::MIN` offset, and only designations of 3–7 characters
+transition's type index in bounds, every offset strictly within 24 hours of UTC (F32), and only designations of 3–7 characters
 from `[0-9A-Za-z+-]`: unsorted or repeated transitions, out-of-range type indices and illegal
 designations are therefore rejected -/
 theorem accepted_is_valid (bytes : List Nat) (z : Zone) (h : parse bytes = .ok z) : ZoneValid z :=
   post_spec (post_parse bytes) h
 
-/-- an accepted rule has rule days in range, rule times below one week in magnitude, offsets of
-at most 24:59:59 (+1 h for a defaulted DST offset), the standard type flagged non-DST and the
+/-- an accepted rule has rule days in range, rule times below one week in magnitude, offsets within
+the coarse bound `RuleV` needs for the lookup arithmetic (the sharp bound, strictly within 24 h, is
+`accepted_offsets_representable`), the standard type flagged non-DST and the
 daylight type flagged DST, and legal 3–7 character designations on both -/
 theorem rule_accepted_is_valid (text : List Nat) (ext : Bool) (r : Rule)
     (h : from_tz_string text ext = .ok r) : RuleV r :=
@@ -116,7 +118,7 @@ theorem written_footer (f : TzFile) (hs1 : BlockShape f.v1) (hs2 : BlockShape f.
 
 /-- the canonical text of EVERY well-formed rule reads back as that rule: both forms (`std offset`
 and `std offset dst offset,start/time,end/time`), bare and `<quoted>` designations, `Jn` / `n` /
-`Mm.w.d` days, offsets up to ±24:59:59, rule times `0…24:59:59` without and `±167:59:59` with the
+`Mm.w.d` days, offsets up to ±23:59:59, rule times `0…24:59:59` without and `±167:59:59` with the
 RFC 8536 extensions (`RuleOk ext r` carries the flag) -/
 theorem tz_roundtrip (r : Rule) (ext : Bool) (h : RuleOk ext r) :
     from_tz_string (renderTz r) ext = .ok r :=
@@ -127,8 +129,10 @@ theorem tz_roundtrip (r : Rule) (ext : Bool) (h : RuleOk ext r) :
 `Spec.Tz.Denotes ext s r` (Spec/TzGrammar.lean) is an inductive, reader-independent definition of
 "the byte string `s` is a POSIX TZ string (RFC 8536 extensions iff `ext`) standing for rule `r`":
 `std offset` or `std offset dst [offset],start[/time],end[/time]`; designations of 3–7 letters, or
-3–7 characters of `[0-9A-Za-z+-]` in `<…>`; offsets `[+|-]hh[:mm[:ss]]` up to 24:59:59 with any zero
-padding; omitted DST offset = one hour ahead of standard; `Jn` / `n` / `Mm.w.d`; omitted `/time` =
+3–7 characters of `[0-9A-Za-z+-]` in `<…>`; offsets `[+|-]hh[:mm[:ss]]` with hh = 0…24 and any zero
+padding, the stated value STRICTLY below 24:00:00 (`Within24h`: `24`, `24:00:01`, … `24:59:59` meet
+the field ranges but are refused when the `LocalTimeType` is built — the repair of finding F32; the
+same bound applies to a defaulted DST offset); omitted DST offset = one hour ahead of standard; `Jn` / `n` / `Mm.w.d`; omitted `/time` =
 02:00:00; times `0…24:59:59`, or signed up to ±167:59:59 with the extensions. -/
 
 /-- ACCEPTS ALL: every string of the grammar — every optional part present or absent, every
@@ -177,6 +181,7 @@ example : Denotes false (asc "EST5EDT,M3.2.0,M11.1.0") sampleRule2 :=
       (by decide) (by decide) (by decide) (by decide) (by decide)))
     (DayTime.default (Day.mwd (Num.snoc 1 (by decide) (Num.one 1 (by decide))) (Num.one 1 (by decide))
       (Num.one 0 (by decide)) (by decide) (by decide) (by decide) (by decide) (by decide)))
+    (by decide) (by decide)
 
 /-- non-vacuity: twelve non-canonical spellings (omitted DST offset / times, `+` signs, padded fields,
 quoted letter names, extension times at ±167:59:59) are in the grammar with the rule stated -/
@@ -573,7 +578,7 @@ theorem parse_written_v1 (f : TzFile) (hver : f.version = .V1) (hs : BlockShape 
 /-- the classes the property names, each on its own: a written file (v2/v3; values fitting their
 fields, admissible footer) is REJECTED if its transitions are not strictly increasing, or a
 transition's type index is out of bounds, or a type's designation index is out of bounds, or an
-offset is `i32::MIN`, or the indicator arrays contain the forbidden couple, or the leap-second table
+offset is 24 hours or more in magnitude (86400 s … `i32::MAX`, −86400 s … `i32::MIN`; F32), or the indicator arrays contain the forbidden couple, or the leap-second table
 violates its constraints, or the footer rule disagrees with the last transition -/
 theorem rejects_written_classes (f : TzFile) (hver : f.version ≠ .V1) (hs1 : BlockShape f.v1)
     (hs2 : BlockShape f.v2) (hfit : BlockFits f.version 8 f.v2) (rule : Option Rule)
@@ -581,7 +586,7 @@ theorem rejects_written_classes (f : TzFile) (hver : f.version ≠ .V1) (hs1 : B
     (h : ¬ SortedStrict (absBlock f.v2 rule).transitions
       ∨ (∃ t ∈ f.v2.trans, f.v2.types.length ≤ t.2)
       ∨ (∃ t ∈ f.v2.types, f.v2.names.length ≤ t.abbr)
-      ∨ (∃ t ∈ f.v2.types, t.off = I32_MIN)
+      ∨ (∃ t ∈ f.v2.types, t.off ≤ -86400 ∨ 86400 ≤ t.off)
       ∨ badIndicators f.v2.types.length f.v2.stdWalls f.v2.utLocals = true
       ∨ checkLeaps (absBlock f.v2 rule).leaps = false
       ∨ ¬ RuleAgrees (absBlock f.v2 rule)) :
@@ -597,7 +602,8 @@ theorem rejects_written_classes (f : TzFile) (hver : f.version ≠ .V1) (hs1 : B
     omega
   · have := (c1 t ht).2.2.1
     omega
-  · exact (c1 t ht).2.1 hmin
+  · have := (c1 t ht).2.1
+    omega
   · rw [h] at c2; cases c2
   · rw [h] at c5; cases c5
   · exact h c6
@@ -653,5 +659,120 @@ example : (∃ z, parse (encodeTzif sampleV2) = .ok z ∧ z.transitions.length =
 
 example : ZoneValid (absBlock sampleV2.v2 (some sampleRule2)) :=
   accepted_is_valid _ _ tzif_roundtrip_samples.2.1
+
+/-! ### F32 (repaired by 770977e): accepted zones are representable, and `Local` answers on them
+
+Finding F32: the readers accepted a zone whose UTC offset is 24 hours or more in magnitude
+(`TZ=AAA24`, `TZ=XXX-24:30`, `AAA5BBB24,M3.2.0,M11.1.0`, a TZif type with `utoff` 86400 or `i32::MAX`;
+`LocalTimeType::new` refused `i32::MIN` only), and `Local::now()`, `Local.from_utc_datetime`,
+`Local.timestamp_opt` … then panicked: `inner::offset_from_utc_datetime(utc).unwrap()`
+(src/offset/local/mod.rs) on the `MappedLocalTime::None` that `FixedOffset::east_opt` produces in
+`Cache::offset`.  Since the repair `LocalTimeType::new` / `with_offset` (model: `Ltt.new`,
+`Ltt.with_offset`) refuse `ut_offset ≤ −86400 ∨ ut_offset ≥ 86400`.  `zoneTypes z` are the local time
+types a zone can answer with (its table's and its rule's); `M.TzL.local_offset_from_utc_datetime`
+(Model/TzLocal.lean) is `<Local as TimeZone>::offset_from_utc_datetime` with the `unwrap` modelled
+as a panic. -/
+
+/-- (a) EVERY local time type of EVERY accepted zone — TZif bytes or TZ string, table or rule, given or
+defaulted DST offset, referred to by a transition or not — is strictly within 24 hours of UTC, i.e.
+`FixedOffset::east_opt` holds it -/
+theorem accepted_offsets_representable :
+    (∀ (bytes : List Nat) (z : Zone), parse bytes = .ok z → ∀ t ∈ zoneTypes z, -86400 < t.off ∧ t.off < 86400)
+      ∧ (∀ (text : List Nat) (ext : Bool) (r : Rule), from_tz_string text ext = .ok r →
+          ∀ t ∈ zoneTypes (zoneOfRule r), -86400 < t.off ∧ t.off < 86400) :=
+  ⟨fun bytes z h t ht => parsed_within bytes z h t ht,
+   fun text ext r h t ht => rule_within text ext r h t (zoneOfRule_types r t ht)⟩
+
+/-- the constructors themselves: `LocalTimeType::new` and `with_offset` refuse exactly the offsets of
+24 hours or more (whatever the flag and the designation), and return the offset given otherwise -/
+theorem ltt_new_refuses_iff (off : Int) (dst : Bool) (name : Option (List Nat)) :
+    ((off ≤ -86400 ∨ 86400 ≤ off) → Ltt.new off dst name = .err ∧ Ltt.with_offset off = .err)
+      ∧ ((-86400 < off ∧ off < 86400) → Ltt.with_offset off = .ok ⟨off, false, none⟩
+          ∧ Ltt.new off dst none = .ok ⟨off, dst, none⟩
+          ∧ ∀ n, NameOk n → Ltt.new off dst (some n) = .ok ⟨off, dst, some n⟩) := by
+  constructor
+  · intro h
+    unfold Ltt.new Ltt.with_offset
+    rw [if_pos (by omega), if_pos (by omega)]
+    exact ⟨rfl, rfl⟩
+  · intro h
+    refine ⟨?_, ?_, fun n hn => ltt_new_ok off dst n h hn⟩
+    · unfold Ltt.with_offset; rw [if_neg (by omega)]
+    · unfold Ltt.new; rw [if_neg (by omega)]
+
+/-- a TZ string that meets the field ranges of the grammar (`hh ≤ 24`) but states — or defaults to — an
+offset of 24:00:00 or more is REFUSED: with `tz_reader_is_grammar`, exactly the side condition
+`Within24h` of `Denotes` separates these texts from the accepted ones -/
+theorem tz_rejects_24h (ext : Bool) (s : List Nat) (r : Rule) (h : from_tz_string s ext = .ok r) :
+    ∀ t ∈ ruleTypes r, Within24h t.off :=
+  rule_within s ext r h
+
+/-- (b) LOOKUP TOTALITY AT THE `Local` LEVEL, TZif zones: for every zone `parse` accepts and every
+instant a `NaiveDateTime` can hold (`NDT_MIN_TS … NDT_MAX_TS`, tied to the calendar by
+`Props.C05.ndt_range_ok`), the zone lookup succeeds (`expect` in `Cache::offset` does not fire),
+`FixedOffset::east_opt` holds the offset, `Cache::offset(d, false)` is `Single`, and hence the
+`unwrap` of `Local::offset_from_utc_datetime` does not fire: the result is `Ok o`, `o` being the
+offset of one of the zone's own local time types -/
+theorem local_offset_total (bytes : List Nat) (z : Zone) (h : parse bytes = .ok z) (x : Int)
+    (hx : M.TzL.NDT_MIN_TS ≤ x ∧ x ≤ M.TzL.NDT_MAX_TS) :
+    ∃ o, M.TzL.local_offset_from_utc_datetime z x = .ok o
+      ∧ M.TzL.cache_offset z x false = .ok (.single o)
+      ∧ (-86400 < o ∧ o < 86400) ∧ ∃ l ∈ zoneTypes z, l.off = o :=
+  local_offset_ok z (parsed_instantSafe bytes z h) (parsed_within bytes z h) x hx
+
+/-- (b) the same for a zone built from a `TZ` value that is a rule text (`TimeZone::from_posix_tz`) -/
+theorem local_offset_total_tz_string (text : List Nat) (ext : Bool) (r : Rule)
+    (h : from_tz_string text ext = .ok r) (x : Int) (hx : M.TzL.NDT_MIN_TS ≤ x ∧ x ≤ M.TzL.NDT_MAX_TS) :
+    ∃ o, M.TzL.local_offset_from_utc_datetime (zoneOfRule r) x = .ok o
+      ∧ M.TzL.cache_offset (zoneOfRule r) x false = .ok (.single o)
+      ∧ (-86400 < o ∧ o < 86400) ∧ ∃ l ∈ ruleTypes r, l.off = o := by
+  obtain ⟨o, h1, h2, h3, l, hl, he⟩ := local_offset_ok (zoneOfRule r) (zoneOfRule_instantSafe r)
+    (fun t ht => rule_within text ext r h t (zoneOfRule_types r t ht)) x hx
+  exact ⟨o, h1, h2, h3, l, zoneOfRule_types r l hl, he⟩
+
+/-- … hence `Local.timestamp_opt` / `timestamp_millis_opt` / `timestamp_micros` / `timestamp_nanos`
+/ `from_utc_datetime` / `Local::now()` (all: `from_utc_datetime` of an instant in range) never panic on
+an accepted zone: out of range is `MappedLocalTime::None` by value, in range is `Single` -/
+theorem local_timestamp_total (bytes : List Nat) (z : Zone) (h : parse bytes = .ok z) (secs : Int) :
+    M.TzL.local_timestamp_opt z secs ≠ .panic := by
+  have := local_timestamp_ok z (parsed_instantSafe bytes z h) (parsed_within bytes z h) secs
+  by_cases c : M.TzL.NDT_MIN_TS ≤ secs ∧ secs ≤ M.TzL.NDT_MAX_TS
+  · obtain ⟨o, ho, -⟩ := this.2 c
+    rw [ho]; exact fun e => by cases e
+  · rw [this.1 c]; exact fun e => by cases e
+
+/-- non-vacuity: New York's sample zone through the `Local` glue at 2024-07-01 and at both ends of the
+`NaiveDateTime` range; the zone of `TZ=AAA-23:59:59` (offset +86399, the largest there is) answers too -/
+example :
+    M.TzL.local_offset_from_utc_datetime (absBlock sampleV2.v2 (some sampleRule2)) 1719835200 = .ok (-14400)
+      ∧ M.TzL.local_offset_from_utc_datetime (absBlock sampleV2.v2 (some sampleRule2)) M.TzL.NDT_MIN_TS = .ok (-18000)
+      ∧ M.TzL.local_offset_from_utc_datetime (absBlock sampleV2.v2 (some sampleRule2)) M.TzL.NDT_MAX_TS = .ok (-18000)
+      ∧ from_tz_string (asc "AAA-23:59:59") false = .ok (.fixed ⟨86399, false, some (asc "AAA")⟩)
+      ∧ M.TzL.local_offset_from_utc_datetime (zoneOfRule (.fixed ⟨86399, false, some (asc "AAA")⟩)) 0 = .ok 86399 := by
+  refine ⟨by decide +kernel, by decide +kernel, by decide +kernel, by decide +kernel, by decide +kernel⟩
+
+/-- (c) THE PINNED BEHAVIOUR BEFORE THE REPAIR, kernel-checked: the old acceptance test
+(`Ltt.new_before_F32`: only `i32::MIN` refused) builds the local time type of `TZ=AAA-24` (offset
++86400) and of a TZif type with `utoff` 86400 or `i32::MAX`; on the zone holding it the model of
+`Local::offset_from_utc_datetime` PANICS at every instant (the `unwrap` of `MappedLocalTime::None`),
+while the wall-clock direction answers `None` by value.  The repaired constructor refuses all three. -/
+theorem local_panics_pinned_before_F32 :
+    Ltt.new_before_F32 86400 false (some (asc "AAA")) = .ok ⟨86400, false, some (asc "AAA")⟩
+      ∧ Ltt.new_before_F32 2147483647 true none = .ok ⟨2147483647, true, none⟩
+      ∧ (∀ x, M.TzL.local_offset_from_utc_datetime (zoneOfRule (.fixed ⟨86400, false, some (asc "AAA")⟩)) x = .panic)
+      ∧ (∀ x, M.TzL.local_offset_from_utc_datetime ⟨[], [⟨2147483647, true, none⟩], [], none⟩ x = .panic)
+      ∧ (∀ x, M.TzL.NDT_MIN_TS ≤ x ∧ x ≤ M.TzL.NDT_MAX_TS →
+            M.TzL.local_timestamp_opt ⟨[], [⟨-86400, false, none⟩], [], none⟩ x = .panic)
+      ∧ M.TzL.cache_offset (zoneOfRule (.fixed ⟨86400, false, some (asc "AAA")⟩)) 0 true = .ok .none
+      ∧ Ltt.new 86400 false (some (asc "AAA")) = .err ∧ Ltt.new 2147483647 true none = .err
+      ∧ Ltt.new (-86400) false none = .err
+      ∧ from_tz_string (asc "AAA-24") false = .err ∧ from_tz_string (asc "AAA24") false = .err
+      ∧ from_tz_string (asc "AAA5BBB24,M3.2.0,M11.1.0") false = .err := by
+  refine ⟨by decide +kernel, by decide +kernel, fun x => rfl, fun x => rfl, fun x hx => ?_, by decide +kernel,
+    by decide +kernel, by decide +kernel, by decide +kernel, by decide +kernel, by decide +kernel,
+    by decide +kernel⟩
+  unfold M.TzL.local_timestamp_opt
+  rw [if_pos hx]
+  rfl
 
 end Chrono.Props.C16
